@@ -200,6 +200,8 @@ FINGERPRINTED = [
     ("B", "Do", "process_subitem"), ("B", "Associate", "process_item"),
     ("B", "Type", "process_item"), ("B", "Enum", "process_item"),
     ("B", "EndDo", "process_item"), ("B", "SubprogramPrefix", "process_item"),
+    ("B", "Enum", "tostr"), ("B", "If", "process_item"),
+    ("TD", "TypeDeclarationStatement", "process_item"),
 ]
 
 
@@ -274,7 +276,11 @@ def collect():
                         quiet = False
     fps = []
     for mod, cn, meth in FINGERPRINTED:
-        c = getattr(B if mod == "B" else BC, cn)
+        if mod == "TD":
+            import fparser.one.typedecl_statements as TD
+            c = getattr(TD, cn)
+        else:
+            c = getattr(B if mod == "B" else BC, cn)
         fps.append(("%s.%s" % (cn, meth), fingerprint(c.__dict__[meth])))
     return dict(names=names, rows=rows, fps=fps, quiet=quiet, keys=keys)
 
